@@ -261,6 +261,7 @@ structure St where
   del : KTab BinItem
   copies : KTab (List (Int × Int × Int))
   cells : Option (List Int)
+  newCopy : Bool                              -- `new_copy`: set by tidy_model, cleared only by copy_entities
   mixes : KTab (List (Int × Int × List Int))
   -- reset by read_input
   use : KTab UseSlot
@@ -276,7 +277,7 @@ structure St where
 
 def St.init (unsignedLoop : Bool) : St :=
   { maps := .const [], next := 0, prov := [], trace := [],
-    del := .const ⟨false, []⟩, copies := .const [], cells := none, mixes := .const [],
+    del := .const ⟨false, []⟩, copies := .const [], cells := none, newCopy := false, mixes := .const [],
     use := .const ⟨false, -1⟩, save := .const ⟨false, 0, 0⟩, newSet := .const [],
     seenKinetics := false, seenCopy := false, stopped := none, errPending := false, simNo := 0,
     unsignedLoop := unsignedLoop }
@@ -419,6 +420,7 @@ def tidyKinetics (s : St) : St :=
 
 /-- ends with "Calculations terminating due to input errors." when an error is on record -/
 def tidyModel (s : St) : St :=
+  let s := if s.seenCopy then { s with newCopy := true } else s
   let s := tidyKinetics (tidySS (tidyPP (tidyGas s)))
   if s.errPending then s.stop "inputerrors" else s
 
@@ -572,14 +574,14 @@ def copyOrder : List Kind :=
 
 def copyEntities (s : St) : St :=
   if s.stopped.isSome then s else
-  if !s.seenCopy then s else
+  if !s.newCopy then s else
   let s := copyOrder.foldl (fun s k =>
     (s.copies k).foldl (fun s (r : Int × Int × Int) =>
       if s.stopped.isSome then s else
       match copyTargets s.unsignedLoop r.2.1 r.2.2 with
       | none => if (s.find k r.1).isSome then s.stop s!"runaway {k.name} {r.1} {r.2.1} {r.2.2}" else s
       | some ts => s.exec (.copyTo k r.1 ts)) s) s
-  if s.stopped.isSome then s else { s with copies := .const [] }
+  if s.stopped.isSome then s else { s with copies := .const [], newCopy := false }
 
 def deleteEntities (s : St) : St :=
   if s.stopped.isSome then s else
